@@ -413,6 +413,15 @@ PROPS = {
                      "ActionFiles with suffix filters or ActionDirectories; non-trivial = at least one candidate"),
 }
 
+# further streams of properties whose main check lives in another module (orch/fmt.py merges them into its run)
+EXTRA = {
+    "C06": dict(streams=[dict(harness="suppress", model="algebra", oracle="algebra_oracle", quick=3000, thorough=120000)],
+                tie="Model/Action.v msgs_suppress (match relation of Run/RunAlgebra.v) <-> real Action.Suppress",
+                rule="suppress stream: Suppress with 1-4 expressions (literal, or carrying an ungrouped (?i) flag, in any position) over a "
+                     "Batch of 1-4 message-carrying actions whose messages differ from the expressions by case only, contain `|` or `(`, or "
+                     "match none; the surviving messages, values and meta are compared with the model and judged by the reference algebra"),
+}
+
 TRUSTED = ["Go harness stream(s) and extracted oracle of this property (see rule)"]
 ASSUMPTIONS = {}
 
@@ -421,8 +430,8 @@ def nontrivial_default(fields, impl):
     return len(impl) > 3
 
 
-def explore(pid, ctx):
-    cfg = PROPS[pid]
+def explore(pid, ctx, cfg=None):
+    cfg = cfg or PROPS[pid]
     tier, seed = ctx["tier"], ctx["seed"]
     t0 = time.time()
     failures, tie_broken, errors = [], [], []
@@ -539,8 +548,8 @@ def rerun(st, fields):
     return None
 
 
-def replay(pid, payload, ctx):
-    cfg = PROPS[pid]
+def replay(pid, payload, ctx, cfg=None):
+    cfg = cfg or PROPS[pid]
     fields = [bytes.fromhex(x) for x in payload["case_hex"]]
     stream = payload.get("oracle_failure", {}).get("shell") or cfg["streams"][0]["harness"]
     st = next((s for s in cfg["streams"] if s["harness"] == stream), cfg["streams"][0])
